@@ -69,7 +69,7 @@ def gen_history(rng):
             op["kw"] = {"immed": rng.getrandbits(1), "group": rng.randrange(32)}
             op["tl"] = min(tl, 0xFFFF)
         ops.append(op)
-    return {"bs": bs, "nblocks": nblocks, "ops": ops, "devtype": rng.choice([0, 0, 4, 7]), "inquiry_length": rng.choice([36, 96, 96])}
+    return {"bs": bs, "nblocks": nblocks, "ops": ops, "devtype": rng.choice([0, 0, 4, 7]), "inquiry_length": rng.choice([36, 96, 96, 128, 260])}
 
 
 def gen_big(rng, i):
@@ -106,6 +106,7 @@ def run_tour(ctx, rng, world):
         bs = rng.choice([512, 520, 4096])
         nblocks = rng.choice([1 << 20, (1 << 21) + 5, (1 << 32) + 0x3039, 1 << 41])
         tgt = Target(rng.choice([0, 0, 4, 7]), 0, bs, nblocks, product=b"UNIT %-11d" % i)
+        tgt.inquiry_length = rng.choice([36, 96, 96, 97, 200, 260])
         if rng.random() < 0.4:
             tgt.unsupported = {"ReadCapacity16", "GetLBAStatus"}
         transport = rng.choice(["sgio", "iscsi"])
